@@ -326,7 +326,13 @@ func runCase(c Case) []ev.Violation {
 		}
 	}
 	breakerSkips := c.Engine == "olla" && anyFailing && ct > attempts && cf >= ct-attempts
-	if !refusing && ct != attempts && !breakerSkips {
+	// an attempt cancelled by its client's abort before the backend had read the request is an
+	// attempt Olla made (and records) that no backend saw
+	abortedEarly := ct > attempts && int64(ct-attempts) <= aborted
+	if abortedEarly {
+		rec.Class("attempts-recorded-exceed-backend-view-by-client-aborts")
+	}
+	if !refusing && ct != attempts && !breakerSkips && !abortedEarly {
 		bad("collector-attempts-not-recorded-once/"+tag, "collector recorded %d attempts, the backends saw %d: %s", ct, attempts, desc)
 	}
 	if refusing && ct < attempts {
